@@ -125,6 +125,49 @@ pub fn run() -> i32 {
             }
         }
     }
+    // ---- links on EVERY kind of element that carries a doc comment: a good link and @see are bound, a broken one is a warning -------
+    {
+        let text = "module M\nstruct Target {}\n/// {@link Target} and {@link Nope1}.\n/// @see Target\nstruct S {\n    /// {@link Target} and {@link Nope2}.\n    /// @see Target\n    f: bool\n}\n/// {@link Target} and {@link Nope3}.\n/// @see Target\ninterface I {\n    /// {@link Target} and {@link Nope4}.\n    /// @see Target\n    op()\n}\n/// {@link Target} and {@link Nope5}.\n/// @see Target\nenum E {\n    /// {@link Target} and {@link Nope6}.\n    /// @see Target\n    A\n}\n/// {@link Target} and {@link Nope7}.\n/// @see Target\ncustom C\n/// {@link Target} and {@link Nope8}.\n/// @see Target\ntypealias T = bool\n";
+        rep.case(true, || "links on every kind of element".to_owned());
+        let t2 = text.to_owned();
+        let out = std::panic::catch_unwind(move || {
+            let options = SliceOptions::default();
+            let state = slicec::compile_from_strings(&[&t2], Some(&options));
+            let links = |c: Option<&DocComment>| -> Vec<String> {
+                let mut v = vec![];
+                if let Some(c) = c {
+                    for comp in c.overview.iter().flat_map(|m| m.value.iter()) { if let MessageComponent::Link(l) = comp { v.push(match l.linked_entity() { Ok(e) => format!("{} {}", e.kind(), e.parser_scoped_identifier()), Err(id) => format!("?{}", id.value) }); } }
+                    for s in &c.see { v.push(match s.linked_entity() { Ok(e) => format!("see {} {}", e.kind(), e.parser_scoped_identifier()), Err(id) => format!("see ?{}", id.value) }); }
+                }
+                v
+            };
+            let got = vec![
+                ("struct", links(state.ast.find_element::<Struct>("M::S").ok().and_then(|e| e.comment()))),
+                ("field", links(state.ast.find_element::<Field>("M::S::f").ok().and_then(|e| e.comment()))),
+                ("interface", links(state.ast.find_element::<Interface>("M::I").ok().and_then(|e| e.comment()))),
+                ("operation", links(state.ast.find_element::<Operation>("M::I::op").ok().and_then(|e| e.comment()))),
+                ("enum", links(state.ast.find_element::<Enum>("M::E").ok().and_then(|e| e.comment()))),
+                ("enumerator", links(state.ast.find_element::<Enumerator>("M::E::A").ok().and_then(|e| e.comment()))),
+                ("custom type", links(state.ast.find_element::<CustomType>("M::C").ok().and_then(|e| e.comment()))),
+                ("type alias", links(state.ast.find_element::<TypeAlias>("M::T").ok().and_then(|e| e.comment()))),
+            ];
+            let errors = state.diagnostics.has_errors();
+            let mut diags: Vec<String> = state.into_diagnostics(&options).iter().map(|d| format!("{}: {}", d.code(), d.message())).collect();
+            diags.sort();
+            (got, diags, errors)
+        });
+        match out {
+            Err(_) => rep.counterexample(text, "links", "PANIC"),
+            Ok((got, diags, errors)) => {
+                for (i, (kind, l)) in got.iter().enumerate() {
+                    let want = vec!["struct M::Target".to_owned(), format!("?Nope{}", i + 1), "see struct M::Target".to_owned()];
+                    if *l != want { rep.counterexample(text, &format!("the comment of the {kind}: {want:?}"), &format!("{l:?}")); }
+                }
+                let broken: Vec<&String> = diags.iter().filter(|d| d.starts_with("BrokenDocLink")).collect();
+                if errors || broken.len() != 8 || (1..=8).any(|i| !broken.iter().any(|d| d.contains(&format!("Nope{i}")))) { rep.counterexample(text, "no error, and one BrokenDocLink warning for each of Nope1..Nope8", &format!("errors={errors} {diags:?}")); }
+            }
+        }
+    }
     // ---- link binding: the same outward search as types, starting AT the documented element ----------
     {
         let text = "module M\nstruct Stop {}\nstruct On {}\n/// Either {@link On} or {@link Off}; see {@link Stop} and {@link M::Stop}.\n/// @see Off\n/// @see Stop\nenum Switch { On, Off }\n/// Uses {@link go} and {@link Switch::On}.\ninterface I {\n    /// Like {@link go}, unlike {@link Stop}.\n    go()\n}\n";
